@@ -243,6 +243,15 @@ impl Prop for C04 {
                 op: match o { 0 => Op::MulRounded, 1 => Op::DivRounded, _ => Op::Quantize },
                 x: Opnd::Dec(x), y: Opnd::Dec(y), n, mode,
             }),
+            2 => (arb_word_pair(), arb_word_int(), 0u8..4, 0u8..3, arb_n(), 0u8..8).prop_map(|((x, y), i, k, o, n, mode)| {
+                let (xo, yo) = match k {
+                    0 => (Opnd::Dec(x), Opnd::Dec(y)),
+                    1 => (Opnd::Dec(x), Opnd::Int(i)),
+                    2 => (Opnd::Int(i), Opnd::Dec(y)),
+                    _ => (Opnd::Int(I { ty: i.ty, v: x.c.clamp(int_range(i.ty).0, int_range(i.ty).1) }), Opnd::Int(i)),
+                };
+                Case { op: match o { 0 => Op::MulRounded, 1 => Op::DivRounded, _ => Op::Quantize }, x: xo, y: yo, n, mode }
+            }),
             4 => divisor_scaled(),
             3 => div_tie(),
             3 => mul_tie(),
